@@ -155,6 +155,8 @@ struct MaxCharsCommandSizeLimiter {
     /// Extra space charged for every argument (for the operating system's
     /// limit: the pointer to the argument, which counts against the budget).
     per_arg_overhead: usize,
+    /// Largest single argument, terminator included, that can be passed.
+    max_arg_size: Option<usize>,
 }
 
 impl MaxCharsCommandSizeLimiter {
@@ -163,6 +165,7 @@ impl MaxCharsCommandSizeLimiter {
             current_size: 0,
             max_chars,
             per_arg_overhead: 0,
+            max_arg_size: None,
         }
     }
 
@@ -192,6 +195,14 @@ impl MaxCharsCommandSizeLimiter {
 
         let mut limiter = Self::new(arg_max - ARG_HEADROOM - env_size);
         limiter.per_arg_overhead = POINTER_SIZE;
+        // Linux refuses any single argument longer than MAX_ARG_STRLEN (32 pages).
+        #[cfg(target_os = "linux")]
+        {
+            let page_size = unsafe { uucore::libc::sysconf(uucore::libc::_SC_PAGESIZE) };
+            if page_size > 0 {
+                limiter.max_arg_size = Some(32 * page_size as usize);
+            }
+        }
         limiter
     }
 }
@@ -203,8 +214,9 @@ impl CommandSizeLimiter for MaxCharsCommandSizeLimiter {
         cursor: LimiterCursor<'_>,
     ) -> Result<Argument, ExhaustedCommandSpace> {
         let chars = count_osstr_chars_for_exec(&arg.arg);
+        let fits_alone = self.max_arg_size.map_or(true, |max| chars <= max);
         let chars = chars + self.per_arg_overhead;
-        if self.current_size + chars <= self.max_chars {
+        if fits_alone && self.current_size + chars <= self.max_chars {
             let arg = cursor.try_next(arg)?;
             self.current_size += chars;
             Ok(arg)
